@@ -8,6 +8,9 @@
 #   F  bit-field stores/loads (tools/gen_c07_bf.py): assignment value, value read back and the bytes of the
 #      whole object under every engine vs gcc vs the extracted BitField model, and the MIR text of the
 #      emitted access sequence (`c2m -S`) vs the model's store_code / load_code;
+#   X  calls across the compiler boundary with aggregates passed / returned by value (tools/gen_c07_abi.py):
+#      c2m code calling a gcc-built shared library, gcc code calling back into c2m code, variadic calls, and
+#      c2m-to-c2m calls, for a systematic family of SysV classification boundary shapes + seeded shapes;
 #   C  (thorough) the deterministic programs of /repo/c-tests/{lacc,andrewchambers_c,new} vs gcc.
 import os, sys, re, json, shutil, tempfile, hashlib
 import vlib
@@ -508,7 +511,8 @@ def part_bitfields(chk, c2m, model, d, quick):
 # ------------------------------------------------------------------ B: generated programs
 # generator shape -> signature of the known finding whose witness exhibits it
 KNOWN_SHAPES = {'nested-postdec-while': 'prog:corpus:c07_prog_nested_loop.c',
-                'mixed-unit-bitfields': 'prog:corpus:c07_prog_mixed_bitfield_init.c'}
+                'mixed-unit-bitfields': 'prog:corpus:c07_prog_mixed_bitfield_init.c',
+                'align16-stack': 'abi:corpus:c07_abi_align16_stack.json'}
 
 
 def build_ext(d):
@@ -628,6 +632,142 @@ def part_programs(chk, c2m, d, quick):
     return len(texts) - invalid, findings
 
 
+# ------------------------------------------------------------------ X: aggregates by value across the compiler boundary
+def _tup(x):
+    return tuple(_tup(y) for y in x) if isinstance(x, list) else x
+
+
+def abi_unit_from_json(j):
+    def shape(s):
+        return (s[0], [member(m) for m in s[1]], s[2])
+
+    def member(m):
+        if m[0] == 'agg':
+            return ('agg', shape(m[1]))
+        if m[0] == 'aarr':
+            return ('aarr', shape(m[1]), m[2])
+        return tuple(m)
+    return [(shape(it[0]), it[1], it[2], bool(it[3])) for it in j]
+
+
+def abi_run(c2m, unit, d, tag, only=None, engines=ENGINES):
+    """(ref, results, why): ref = gcc (rc, stdout) or None when the unit is not a valid test"""
+    import gen_c07_abi as A
+    lib, main = A.render(unit, only)
+    lsrc, msrc = os.path.join(d, tag + '_lib.c'), os.path.join(d, tag + '_main.c')
+    open(lsrc, 'w').write(lib)
+    open(msrc, 'w').write(main)
+    outs = []
+    for i, fl in enumerate((['-O0', '-fsanitize=undefined', '-fno-sanitize-recover=all'], ['-O1'], ['-O2'])):
+        exe = os.path.join(d, '%s.g%d' % (tag, i))
+        rc, out, err = vlib.sh(['gcc', '-w', '-std=gnu11'] + fl + [msrc, lsrc, '-o', exe], timeout=300, cwd=d)
+        if rc != 0:
+            return None, {}, 'gcc rejects: ' + err[-300:]
+        rc, out, err = vlib.sh([exe], timeout=60, cwd=d)
+        if 'runtime error' in err:
+            return None, {}, 'UBSan: ' + err[-300:]
+        outs.append((rc, out))
+    if len(set(outs)) != 1:
+        return None, {}, 'gcc -O0/-O1/-O2 disagree'
+    so = os.path.join(d, 'lib%s.so' % tag)
+    vlib.sh(['gcc', '-shared', '-fPIC', '-O1', '-w', '-std=gnu11', '-o', so, lsrc], check=True, timeout=120)
+    res = {}
+    for e in engines:
+        rc, out, err = vlib.sh([c2m, '-w', msrc, '-L' + d, '-l' + tag] + list(e), timeout=60, cwd=d)
+        res[ename(e)] = (rc, out, err[-300:])
+    return outs[1], res, ''
+
+
+def abi_bad_lines(ref, res):
+    """{shape index: {engine: [(call kind, gcc line, c2m line)]}}; index -1 = the run as a whole failed"""
+    bad = {}
+    rl = ref[1].split('\n')
+    for en, (rc, out, err) in sorted(res.items()):
+        ol = out.split('\n')
+        for i, a in enumerate(rl):
+            b = ol[i] if i < len(ol) else '<missing>'
+            if a != b and a:
+                w = a.split()
+                bad.setdefault(int(w[0]), {}).setdefault(en, []).append((w[1], a, b))
+        if rc != ref[0] and not any(en in v for v in bad.values()):
+            bad.setdefault(-1, {}).setdefault(en, []).append(('exit', 'rc=%d' % ref[0], 'rc=%d %s' % (rc, err.strip()[-160:])))
+    return bad
+
+
+def part_abi(chk, c2m, d, quick):
+    import gen_c07_abi as A
+    findings = []
+    units = []
+    cp = os.path.join(vlib.VERIF, 'corpus')
+    for f in sorted(os.listdir(cp)):
+        if f.startswith('c07_abi') and f.endswith('.json'):
+            units.append(('corpus:' + f, abi_unit_from_json(json.load(open(os.path.join(cp, f)))['unit'])))
+    avoid = [shape for shape, sig in KNOWN_SHAPES.items() if any(k == sig for k, _ in chk.known)]
+    if not os.path.exists(os.path.join(cp, KNOWN_SHAPES['align16-stack'].split(':')[-1])):
+        avoid.append('align16-stack')       # the witness of the finding is not in the corpus (yet): do not generate its shape
+    nunits, nshapes = (4, 26) if quick else (40, 30)
+    for i in range(nunits):
+        units.append(('gen%d' % i, A.gen_unit(chk.rng('abi%d' % i), nshapes, avoid=avoid)))
+    ncalls = 0
+    for ui, (name, unit) in enumerate(units):
+        tag = 'x%d' % ui
+        ref, res, why = abi_run(c2m, unit, d, tag)
+        if ref is None:
+            chk.dist('X_units', 'discarded: ' + why.split(':')[0])
+            chk.notes.append('call-boundary unit %s discarded: %s' % (name, why[:200]))
+            continue
+        chk.dist('X_units', 'valid')
+        nl = len([l for l in ref[1].split('\n') if l])
+        ncalls += nl
+        for k, (shape, pre, post, va) in enumerate(unit):
+            size, al = A.size_align(shape)
+            chk.count('X:%s:%s:%s:%d' % (A.type_text(shape), pre, post, va), nontrivial=True, n=len(ENGINES) * (18 + 4 * va))
+            chk.dist('X_size', '<=8' if size <= 8 else '<=16' if size <= 16 else '<=32' if size <= 32 else '>32')
+            chk.dist('X_kind', ('union' if shape[0] == 'u' else 'struct') + (' with array member' if any(m[0] in ('arr', 'aarr') for m in shape[1]) else '')
+                     + (' nested' if any(m[0] in ('agg', 'aarr') for m in shape[1]) else ''))
+            chk.dist('X_scalar_args_before', 'none' if not pre else 'registers only' if A.stack_slots_before(pre, True) == 0 else 'some on the stack')
+            if va:
+                chk.dist('X_variadic', 'aggregate through ...')
+        bad = abi_bad_lines(ref, res)
+        for k in sorted(bad)[:3]:
+            if name.startswith('corpus:'):
+                findings.append((name, unit, None, bad[k]))
+                break
+            only = None
+            if k >= 0:          # confirm on the single shape: that is the replay
+                ref1, res1, why1 = abi_run(c2m, unit, d, tag + 's', only=[k])
+                if ref1 is not None and abi_bad_lines(ref1, res1):
+                    only, bad[k] = [k], abi_bad_lines(ref1, res1).get(k, bad[k])
+            findings.append((name, unit, (k, only), bad[k]))
+    if units:
+        chk.sample('call-boundary shape: ' + A.describe(units[-1][1][0]))
+    seen = set()
+    for name, unit, kk, b in findings:
+        engines = sorted(b)
+        kinds = sorted(set(x[0] for v in b.values() for x in v))
+        first = b[engines[0]][0]
+        if kk is None:
+            sig = 'abi:' + name
+            chk.finding(sig, dict(kind='abi', unit=[list(it) for it in unit], only=None, engines=engines, calls=kinds,
+                                  gcc=first[1], c2m=first[2]),
+                        'call-boundary corpus unit %s: %s differ under c2m %s: gcc `%s`, c2m `%s`'
+                        % (name, ','.join(kinds), ','.join(engines), first[1], first[2]))
+            continue
+        k, only = kk
+        it = unit[k] if k >= 0 else None
+        sig = 'abi:%s:%s:%s' % (A.type_text(it[0]).replace(' ', ''), it[1], it[2]) if it else 'abi:run-failed:' + first[2][:40]
+        if sig in seen or len(seen) >= 4:
+            continue
+        seen.add(sig)
+        lib, main = A.render(unit, only)
+        chk.finding(sig, dict(kind='abi', unit=[list(x) for x in unit], only=only, engines=engines, calls=kinds, library_c=lib, main_c=main,
+                              gcc=first[1], c2m=first[2]),
+                    'aggregate by value across the compiler boundary: %s: calls %s give a different checksum under c2m %s '
+                    '(lib_ = gcc-built callee, loc_ = c2m callee, cb = gcc code calling back c2m code): gcc `%s`, c2m `%s`'
+                    % (A.describe(it) if it else name, ','.join(kinds), ','.join(engines), first[1], first[2]))
+    return ncalls, findings
+
+
 # ------------------------------------------------------------------ C: the repository's own C programs (thorough tier)
 CTEST_DIRS = ('lacc', 'andrewchambers_c', 'new')
 CTEST_ENGINES = [('-ei',), ('-O2', '-eg')]
@@ -719,8 +859,8 @@ def run(chk):
                                 'struct copies, calls, the engines']
     with Scratch() as d:
         c2m, model = tools(d)
-        parts = os.environ.get('C07_PARTS', 'ABF')      # development switch; the registered command runs everything
-        n1 = n2 = n3 = n4 = 0
+        parts = os.environ.get('C07_PARTS', 'ABFX')      # development switch; the registered command runs everything
+        n1 = n2 = n3 = n4 = n5 = 0
         model_breaks = []
         bf_tie = []
         if 'A' in parts:
@@ -730,6 +870,8 @@ def run(chk):
             n4, bad_bf, bf_tie = part_bitfields(chk, c2m, model, d, quick)
         if 'B' in parts:
             n3, bad_progs = part_programs(chk, c2m, d, quick)
+        if 'X' in parts:
+            n5, bad_abi = part_abi(chk, c2m, d, quick)
         if 'C' in parts or (not quick and 'C07_PARTS' not in os.environ):
             part_ctests(chk, c2m, d)
     chk.cov['rule'] = ('A1: _Generic type id of every operator on all 15x15 arithmetic type pairs and of typed integer constants; '
@@ -740,6 +882,10 @@ def run(chk):
                        'F: bit-field stores (declared type x width x position in the unit x neighbours x boundary value x fill pattern x '
                        'form): assignment value, read-back and named bits of the whole object under 7 engine configurations and gcc vs '
                        'the extracted BitField model; emitted MIR access code (c2m -S) vs the model code; '
+                       'X: aggregates passed / returned by value between c2m code and a gcc-built shared library in both directions '
+                       '(direct calls, callbacks, variadic, function pointers) and c2m to c2m: shape (systematic SysV classification '
+                       'boundaries + seeded: arrays over eightbytes, nested aggregates, unions, long double, bit-fields, sizes around 16) x '
+                       'scalar arguments before/after that use up registers; checksum of all leaves under 7 engine configurations vs gcc; '
                        'C (thorough tier only): every .c file of c-tests/{lacc,andrewchambers_c,new} not listed in corpus/c07_ctests_skip.txt: '
                        'stdout + exit status under -ei and -O2 -eg vs gcc (validated like B)')
     tie_broken = bool(lim) or not r['ok'] or bool(model_breaks) or bool(bf_tie)
@@ -800,6 +946,23 @@ def replay(chk, path):
                 same = F.parse_out(o) == ref
                 bad += not same
                 print('%-8s %s' % (ename(e), 'same as gcc' if same else 'DIFFERS:\n' + o + err[-200:]))
+            return 1 if bad else 0
+        if j.get('kind') == 'abi':
+            import gen_c07_abi as A
+            unit = abi_unit_from_json(j['unit'])
+            ref, res, why = abi_run(c2m, unit, d, 'rp', only=j.get('only'))
+            if ref is None:
+                print('the unit is not a valid test any more:', why)
+                return 1
+            for k in (j.get('only') or range(len(unit))):
+                print('shape %d: %s' % (k, A.describe(unit[k])))
+            print('lines: <shape> <call> <seed> <checksum of all leaves the callee / caller saw>; lib_ = gcc-built callee, loc_ = c2m callee')
+            bad = abi_bad_lines(ref, res)
+            for k in sorted(bad):
+                for en in sorted(bad[k]):
+                    for kind, a, b in bad[k][en][:6]:
+                        print('%-8s gcc `%s`   c2m `%s`' % (en, a, b))
+            print('differences: %d' % sum(len(v) for b in bad.values() for v in b.values()))
             return 1 if bad else 0
         if j.get('kind') == 'prog':
             build_ext(d)
